@@ -1,4 +1,5 @@
 \* new transactions / receipts (v10) as coded, every schedule (quick)
+\* measured (8 TLC workers shared over 3 runs): 45432 distinct / 180791 generated states, depth 17, 11.0s
 CONSTANTS NSubs = 1 NConn = 1 InitLen = 1 MaxLen = 2 MaxTag = 2 MaxReverts = 1 MaxL1 = 0 MaxPc = 1 MaxTx = 2 MaxGw = 0 MaxRecv = 1 MaxTicks = 0 MaxBack = 3 MaxGot = 6
   Ver = 10 Kinds <- KTxs StartAtL1 <- NoL1 NoLag = FALSE QuietSub = FALSE ReorgPrio = FALSE TeeStage = FALSE Window = FALSE FixL1None = FALSE FixL1Order = FALSE BlockIds <- BidsLatest
 INIT Init
